@@ -295,6 +295,23 @@ pub fn gen_c01(rng: &mut Rng, count: usize, thorough: bool) -> Vec<Case> {
         let dd = 1 + rng.below(4);
         out.push(apply("random-rule", rand_rule(rng, dd), rand_data(rng)));
     }
+    // inputs that are big, not deep: recursion must not grow with the length of a string or array
+    {
+        let long_path = format!("a{}", ".0".repeat(4_000));
+        out.push(apply("big:path", op("var", vec![s(&long_path)]), json!({"a": "x"})));
+        out.push(apply("big:path", op("missing", vec![s(&long_path), s(&format!("{}.1", long_path))]), json!({"a": "x"})));
+        let wide: Vec<Value> = (0..2_500).map(|i| int(i % 7)).collect();
+        let d = json!({"xs": wide, "t": "é".repeat(2_500)});
+        for r in [
+            op("map", vec![var("xs"), op("+", vec![var(""), int(1)])]), op("filter", vec![var("xs"), var("")]), op("all", vec![var("xs"), json!(true)]),
+            op("merge", vec![var("xs"), var("xs")]), op("max", vec![var("xs")]), op("in", vec![int(9), var("xs")]), op("cat", vec![var("t"), var("t")]),
+            op("substr", vec![var("t"), int(-3)]), op("in", vec![s("z"), var("t")]), op("==", vec![var("t"), var("xs")]), op("some", vec![var("t"), op("===", vec![var(""), s("z")])]),
+            op("missing", vec![var("xs")]),
+        ] {
+            out.push(apply("big:wide", r, d.clone()));
+        }
+    }
+
     out
 }
 
@@ -445,6 +462,25 @@ pub fn gen_c03(rng: &mut Rng, count: usize, thorough: bool) -> Vec<Case> {
             for _ in 0..reps {
                 out.push(apply(&format!("count:{}:{}", name, n), op(name, benign_args(name, n, rng)), data.clone()));
             }
+        }
+    }
+    // a wrong count is rejected wherever the operation is reached - in every operand position of
+    // every kind of operator, whatever the other operands are (empty collections included)
+    let bad = [
+        json!({"==": [1]}), json!({"%": [5]}), json!({"substr": ["abc"]}), json!({"in": "x"}), json!({"and": []}), json!({"var": ["a", 1, 2]}),
+        json!({"!": [1, 2]}), json!({"map": [[1]]}), json!({"<": [1]}), json!({"missing_some": [1]}), json!({"reduce": [[1], 2]}), json!({"-": []}),
+    ];
+    for x in bad.iter() {
+        let x = x.clone();
+        for r in [
+            json!({"map": [[], x]}), json!({"map": [null, x]}), json!({"map": [[1], x]}), json!({"filter": [{"var": "nope"}, x]}), json!({"filter": [{"var": "b"}, x]}),
+            json!({"reduce": [[], x, 7]}), json!({"reduce": [[1], 1, x]}), json!({"all": [[], x]}), json!({"some": [[], x]}), json!({"none": [null, x]}), json!({"all": [[1], x]}),
+            json!({"or": [x, true]}), json!({"or": [0, x, 3]}), json!({"or": [0, x]}), json!({"or": [1, x]}), json!({"and": [x, 0]}), json!({"and": [1, x, 0]}), json!({"and": [0, x]}),
+            json!({"if": [x, 1, 2]}), json!({"if": [0, 1, x]}), json!({"if": [true, x, 2]}), json!({"if": [true, 1, x]}), json!({"?:": [0, x, 2]}), json!({"if": [0, 1, x, 2, 3]}),
+            json!({"!": [x]}), json!({"!!": x}), json!({"+": [1, x]}), json!({"cat": ["a", x]}), json!({"var": [x]}), json!({"var": ["nope", x]}), json!({"var": ["a", x]}),
+            json!({"missing": [x]}), json!({"merge": [x]}), json!({"in": [x, []]}), json!({"==": [x, 1]}), json!({"max": [1, x]}), json!({"log": [x]}), json!({"substr": ["abc", x]}),
+        ] {
+            out.push(apply("nested-count", r, data.clone()));
         }
     }
     // the two spellings of one non-array operand: emitted as adjacent pairs (2i, 2i+1)
@@ -852,8 +888,19 @@ pub fn gen_c08(rng: &mut Rng, count: usize, thorough: bool) -> Vec<Case> {
     let extra = vec![
         (int(1), fl(1.0)), (int(0), fl(-0.0)), (int(9007199254740993), int(9007199254740992)), (fl(0.30000000000000004), fl(0.3)),
         (fl(1e-300), int(0)), (json!([1, 2]), json!([1, 2])), (json!({}), json!({})), (s("1"), int(1)),
+        // the same "value" in two types: never strictly equal
+        (json!(true), int(1)), (json!(false), int(0)), (json!(true), fl(1.0)), (json!(false), fl(-0.0)), (Value::Null, int(0)), (Value::Null, json!(false)),
+        (s(""), int(0)), (s("true"), json!(true)), (s("null"), Value::Null), (json!([]), s("")), (json!([1]), int(1)), (json!({}), s("[object Object]")),
     ];
-    let mut out = gen_pairs(rng, count, thorough, &["===", "!==", "=="], &["strict_eq", "strict_ne"], &extra);
+    let mut out = Vec::new();
+    // written in the rule itself (every entry point serialises the rule too)
+    for (a, b) in extra.iter() {
+        for o in ["===", "!=="] {
+            out.push(apply("literal-pair", op(o, vec![a.clone(), b.clone()]), Value::Null));
+            out.push(apply("literal-pair", op(o, vec![b.clone(), a.clone()]), Value::Null));
+        }
+    }
+    out.extend(gen_pairs(rng, count, thorough, &["===", "!==", "=="], &["strict_eq", "strict_ne"], &extra));
     // containers reached twice through one field, and whole-data lookups
     for v in [json!([1, 2]), json!({}), json!([]), json!({"a": 1}), s("x"), int(3), Value::Null] {
         let d = json!({"c": v, "rows": [v.clone(), v.clone()]});
